@@ -381,7 +381,26 @@ func (li *lockInfo) scan(c *Ctx, fn *ssa.Function, fresh map[*ssa.Function]bool,
 						li.tcalls = append(li.tcalls, transportCall{fn, cm.Method.Name(), st, pos})
 					}
 				}
-				if callee := cm.StaticCallee(); callee != nil && callee.Signature.Recv() != nil {
+				// a transport method bound as a method value (read := c.conn.Read) and called later
+				if mc, ok := cm.Value.(*ssa.MakeClosure); ok && len(mc.Bindings) == 1 {
+					if wf, ok := mc.Fn.(*ssa.Function); ok && strings.HasPrefix(wf.Synthetic, "bound method wrapper") {
+						bv := mc.Bindings[0]
+						if ta, ok := bv.(*ssa.TypeAssert); ok {
+							bv = ta.X
+						}
+						if inner := soleCall(wf); inner != nil && inner.Common().IsInvoke() && li.fromTransport(bv) {
+							li.tcalls = append(li.tcalls, transportCall{fn, inner.Common().Method.Name(), st, pos})
+						}
+					}
+				}
+				callee := cm.StaticCallee()
+				if callee != nil && strings.HasPrefix(callee.Synthetic, "thunk for") {
+					// a method expression T.m(recv, ...) is a call of m
+					if inner := soleCall(callee); inner != nil && inner.Common().StaticCallee() != nil {
+						callee = inner.Common().StaticCallee()
+					}
+				}
+				if callee != nil && callee.Signature.Recv() != nil {
 					if types.Identical(deref(callee.Signature.Recv().Type()), li.tn) {
 						li.callSites[callee] = append(li.callSites[callee], struct {
 							caller *ssa.Function
@@ -651,6 +670,50 @@ func c14Type(c *Ctx, r *Report, li *lockInfo, name string, control bool) map[str
 			if iff, ok := b.Instrs[len(b.Instrs)-1].(*ssa.If); ok {
 				if cmp, ok := iff.Cond.(*ssa.BinOp); ok && (li.fromTransport(cmp.X) || li.fromTransport(cmp.Y)) {
 					nilTested = true
+				}
+			}
+		}
+		// ... or the transport is handed to a helper of the module that tests that parameter for nil
+		if !nilTested {
+			for _, b := range cl.Blocks {
+				for _, in := range b.Instrs {
+					call, ok := in.(*ssa.Call)
+					if !ok {
+						continue
+					}
+					sc := call.Common().StaticCallee()
+					if sc == nil || sc.Blocks == nil || !c.inModule(sc) {
+						continue
+					}
+					for i, a := range call.Common().Args {
+						if !li.fromTransport(a) || i >= len(sc.Params) {
+							continue
+						}
+						fromParam := func(v ssa.Value) bool {
+							for k := 0; k < 4; k++ {
+								switch x := v.(type) {
+								case *ssa.MakeInterface:
+									v = x.X
+									continue
+								case *ssa.ChangeInterface:
+									v = x.X
+									continue
+								case *ssa.ChangeType:
+									v = x.X
+									continue
+								}
+								break
+							}
+							return v == ssa.Value(sc.Params[i])
+						}
+						for _, hb := range sc.Blocks {
+							if iff, ok := hb.Instrs[len(hb.Instrs)-1].(*ssa.If); ok {
+								if cmp, ok := iff.Cond.(*ssa.BinOp); ok && (fromParam(cmp.X) && isNilConst(cmp.Y) || fromParam(cmp.Y) && isNilConst(cmp.X)) {
+									nilTested = true
+								}
+							}
+						}
+					}
 				}
 			}
 		}
